@@ -285,6 +285,7 @@ fn kinds_for(scenario: &str, r: &mut Rng) -> Vec<ColKind> {
 			"rc" => if i == 0 { ColKind::HashRc } else { *r.pick(&[ColKind::HashRc, ColKind::BtreeRc, ColKind::Hash]) },
 			"reindex" => if i == 0 { ColKind::HashUniform } else { *r.pick(&[ColKind::HashUniform, ColKind::Hash]) },
 			"tree" | "treelock" => if i == 0 { tree_kind(r) } else { *r.pick(&[ColKind::Hash, ColKind::Btree]) },
+			"admin" => if r.chance(1, 3) { tree_kind(r) } else { *r.pick(&any_kv) },
 			_ => {
 				if r.chance(1, 8) {
 					tree_kind(r)
@@ -499,6 +500,9 @@ fn gen_ops(r: &mut Rng, cfg: &RunCfg, tier: Tier, big_max: u32) -> Vec<Op> {
 	}
 	let mut pipe = Pipe { reindex_bias: scenario == "reindex", ..Pipe::default() };
 	let mut ops = Vec::new();
+	if scenario == "treelock" && r.chance(1, 3) {
+		ops = treelock_pattern(r, cfg);
+	}
 	let mut tree_state = crate::gen2::TreeGen::new(cfg);
 	let mut crashes = 0;
 	while ops.len() < n {
@@ -616,4 +620,60 @@ impl PipeLike for Pipe {
 	fn tuple(&self) -> PipeViewSrc {
 		(self.queued, self.appending, self.unread, self.dirty)
 	}
+}
+
+/// Scripted prefix for the tree-lock scenario (the rest of the run is random as usual): a tree
+/// with two references whose reader handle is fetched early, locked only after the first
+/// dereference has been processed, and held while the second one is committed and processed.
+fn treelock_pattern(r: &mut Rng, cfg: &RunCfg) -> Vec<Op> {
+	let cols: Vec<u8> = (0..cfg.cols.len())
+		.filter(|c| matches!(cfg.cols[*c].kind, ColKind::Tree { append_only: false, rc_roots: true, .. }))
+		.map(|c| c as u8)
+		.collect();
+	if cols.is_empty() {
+		return Vec::new()
+	}
+	let c = *r.pick(&cols);
+	let nk = cfg.cols[c as usize].keys.len();
+	if nk == 0 {
+		return Vec::new()
+	}
+	let k = r.below(nk as u64) as usize;
+	let leaf = |r: &mut Rng| TreeSpec { data: ValSpec { len: r.range(0, 60) as u32, seed: r.next(), compressible: false }, children: Vec::new() };
+	let spec = TreeSpec {
+		data: ValSpec { len: r.range(0, 40) as u32, seed: r.next(), compressible: false },
+		children: (0..r.range(1, 4)).map(|_| ChildSpec::New(leaf(r))).collect(),
+	};
+	let mut ops = Vec::new();
+	let mut filler = |ops: &mut Vec<Op>, r: &mut Rng| {
+		for _ in 0..r.below(3) {
+			ops.push(Op::Step(*r.pick(&[Stage::Flush, Stage::EnactAll, Stage::EnactOne, Stage::Clean, Stage::ProcessReindex])));
+		}
+	};
+	ops.push(Op::Commit(vec![(c, TxOp::InsertTree(k, spec))]));
+	if r.chance(1, 2) {
+		ops.push(Op::Step(Stage::ProcessCommits));
+	}
+	ops.push(Op::Commit(vec![(c, TxOp::RefTree(k))]));
+	let early = r.chance(2, 3);
+	if early {
+		ops.push(Op::TreeHandle(c, k));
+	}
+	ops.push(Op::Step(Stage::ProcessCommits));
+	ops.push(Op::Step(Stage::ProcessCommits));
+	filler(&mut ops, r);
+	if !early {
+		ops.push(Op::TreeHandle(c, k));
+	}
+	ops.push(Op::Commit(vec![(c, TxOp::DerefTree(k))]));
+	ops.push(Op::Step(Stage::ProcessCommits));
+	filler(&mut ops, r);
+	ops.push(Op::LockTree(c, k));
+	ops.push(Op::Commit(vec![(c, TxOp::DerefTree(k))]));
+	ops.push(Op::Step(Stage::ProcessCommits));
+	filler(&mut ops, r);
+	ops.push(Op::Step(Stage::ProcessCommits));
+	ops.push(Op::UnlockTree(c, k));
+	ops.push(Op::Step(Stage::ProcessCommits));
+	ops
 }
